@@ -65,6 +65,8 @@ def generate(tier, seed):
         for ar in range(0, 7):
             for _ in range(6 if tier == "quick" else 60):
                 steps.append(Q_e([rnd.choice(vals_pool) for _ in range(ar)]))
+                # the tuple (serde) form, also with integer / boolean / map typed values
+                steps.append(Q_et([rnd.choice(vals_pool + [7, -1, True, {"k": "v"}, {"owner": "alice", "n": 3}]) for _ in range(ar)]))
         for _ in range(120 if tier == "quick" else 3000):
             # the subject matches a stored rule so that the built-in matchers are actually reached
             req = []
